@@ -173,7 +173,8 @@ def run_dir():
 
 
 def coqc_file(path, timeout=900):
-    p = sh(["coqc", "-Q", COQ, "Moq", path], cwd=os.path.dirname(path), timeout=timeout)
+    p = sh(["bash", "-c", "ulimit -s unlimited 2>/dev/null || ulimit -s 1000000; exec coqc -Q %s Moq %s" % (COQ, path)],
+           cwd=os.path.dirname(path), timeout=timeout)
     return p.returncode, p.stdout, p.stderr
 
 
